@@ -82,6 +82,37 @@ def bounded(tier, seed):
                 break
         if len(failures) >= 5:
             break
+        # long histories on the simulator's own state chain (no fresh states): 2 random walks of 26 applicable steps
+        import random as _r
+        for w in range(2):
+            if len(failures) >= 5:
+                break
+            rng = _r.Random(s * 31 + w)
+            ref, cur = ref0, init
+            for step in range(26):
+                cands = []
+                for (a, ps) in gas:
+                    try:
+                        nxt = seqsem.successor(pr, ref, a, ps)
+                    except seqsem.Ambiguous:
+                        nxt = None
+                    if nxt is not None:
+                        cands.append((a, ps, nxt))
+                if not cands:
+                    break
+                changing = [c for c in cands if not SC.same_state(c[2], ref)]
+                a, ps, nxt = rng.choice(changing or cands)
+                with warnings.catch_warnings():
+                    warnings.simplefilter("ignore")
+                    got = sim.apply(cur, a, ps)
+                evals += 1
+                if got is None or not SC.same_state(SC.read_state(pr, got), nxt):
+                    failures.append({"what": f"seed {s}: after a history of {step + 1} applications the simulator's state differs from the "
+                                             f"documented semantics [{signature(pr, a)}]",
+                                     "concrete": SC.describe(pr, ref, a, ps) | {"history_length": step + 1},
+                                     "observed": None if got is None else str(SC.read_state(pr, got))})
+                    break
+                ref, cur = nxt, got
     return {"evaluations": evals, "distinct_nontrivial": len(nontrivial), "failures": failures,
             "rule": f"{nprob} generated problems (rtc/gen.py grammar), states reachable within depth {depth} under the "
                     f"reference semantics, every ground action instance; non-trivial = distinct (problem, state, action "
